@@ -137,7 +137,7 @@ Reject == /\ st.phase = "live" /\ Len(h) <= MaxLen /\ nref < MaxRefuse
              \E k \in {<<a.a, outc[a].why>> : a \in refused} :
                   LET a == CHOOSE x \in refused : x.a = k[1] /\ outc[x].why = k[2] IN
                   /\ st' = st
-                  /\ h' = Append(h, a)
+                  /\ h' = Append(h, a @@ [rej |-> k[2]])     \* (the marker is dropped by the harness)
           /\ nref' = nref + 1
           /\ UNCHANGED nsched
 
